@@ -331,6 +331,11 @@ def run(prog, tier, extra=None):
                             ab.loc(sorted(pushes)[0])))
         else:
             res.sample({"rule": R7, "builder": adder, "cap_after_push": cap, "validator_accepts": accepted})
+    # "on any chain without reorganisation [the wallet's outputs] are exactly the ledger's": the wallet follows the chain only if every
+    # wound / unwound block is handed to Wallet::on_chain_reorganization (which also ages out outputs that left the window)
+    from ._include import include
+    include(res, prog, tier, extra, "c03", ["C03.lockstep"],
+            "every wind/unwind step updates the wallet view, unconditionally", keep=lambda f: "|wallet|" in f.key)
     res.explanation = (
         "Decides the structural clause that the balance and the unspent list move together: every body that inserts into / removes from / clears "
         "Wallet.unspent_slips also adds to / subtracts from / zeroes available_balance and vice versa, and nothing outside impl Wallet can write the balance. "
